@@ -6,6 +6,7 @@ import impl
 
 PID = "C04"
 LEAN_MODULES = ["BtcHd.Props.C04"]
+LEAN_MODULES_THOROUGH = ['BtcHd.Props.TrBip39']
 TRUSTED_BASE = common.CORE_TRUSTED + [
     "SHA-256 is a parameter of the theorems (only its 32-byte output length is used)",
     "lean/BtcHd/Official/Wordlist.lean is a frozen copy of bip-0039/english.txt, anchored by the SHA-256 "
